@@ -129,4 +129,83 @@ theorem showincludes_spec (output : Bytes) :
   simp only [List.nil_append, Bool.true_eq_false, if_true]
   cases (splitNL output []).filter (fun l => !isNote l) <;> simp [joinLines]
 
+/-! ### Output directories -/
+
+theorem createParentDirs_done (outs done : List Bytes) :
+    ∀ d ∈ done, d ∈ createParentDirs outs done := by
+  induction outs generalizing done with
+  | nil => intro d hd; exact hd
+  | cons o os ih =>
+    intro d hd
+    unfold createParentDirs
+    simp only []
+    split
+    · exact ih done d hd
+    · exact ih _ d (by simp [hd])
+
+/-- The parent of every output is handed to `create_dir_all` (whatever else the step lists,
+    in whatever order, however the directories nest). -/
+theorem createParentDirs_covers (outs done : List Bytes) :
+    ∀ o ∈ outs, parentOf o ∈ createParentDirs outs done := by
+  induction outs generalizing done with
+  | nil => intro o ho; cases ho
+  | cons o' os ih =>
+    intro o ho
+    unfold createParentDirs
+    simp only []
+    simp at ho
+    rcases ho with rfl | ho
+    · split
+      · rename_i hc; exact createParentDirs_done os done _ (by simpa using hc)
+      · exact createParentDirs_done os _ _ (by simp)
+    · split
+      · exact ih done o ho
+      · exact ih _ o ho
+
+theorem splitSlash_length_pos (l cur : Bytes) : 0 < (splitSlash l cur).length := by
+  induction l generalizing cur with
+  | nil => simp [splitSlash]
+  | cons c r ih => unfold splitSlash; split <;> simp [ih]
+
+theorem joinSlash_splitSlash (l cur : Bytes) : joinSlash (splitSlash l cur) = cur ++ l := by
+  induction l generalizing cur with
+  | nil => simp [splitSlash, joinSlash]
+  | cons c r ih =>
+    unfold splitSlash
+    split
+    · rename_i hc
+      have hpos := splitSlash_length_pos r []
+      cases hx : splitSlash r [] with
+      | nil => rw [hx] at hpos; simp at hpos
+      | cons y ys =>
+        have := ih []
+        rw [hx] at this
+        simp only [joinSlash, this]
+        have : c = SLASH := by simpa using hc
+        simp [this]
+    · rw [ih]; simp
+
+theorem dirAndAncestors_self (d : Bytes) (hd : d ≠ []) (hj : joinSlash (splitSlash d []) = d) :
+    d ∈ dirAndAncestors d := by
+  unfold dirAndAncestors
+  have : d.isEmpty = false := by cases d <;> simp_all
+  simp only [this, Bool.false_eq_true, if_false, List.mem_map, List.mem_range]
+  have hl := splitSlash_length_pos d []
+  refine ⟨(splitSlash d []).length - 1, by omega, ?_⟩
+  rw [show (splitSlash d []).length - 1 + 1 = (splitSlash d []).length by omega, List.take_length]
+  exact hj
+
+/-- **Every output's directory exists when the command starts**: the (non-empty) parent of every
+    output is among the directories made before the command, for every list of outputs. -/
+theorem output_dirs_exist (outs : List Bytes) (o : Bytes) (ho : o ∈ outs) (hne : parentOf o ≠ []) :
+    parentOf o ∈ dirsBeforeCommand outs := by
+  unfold dirsBeforeCommand
+  simp only [List.mem_flatMap]
+  exact ⟨parentOf o, createParentDirs_covers outs [] o ho, dirAndAncestors_self _ hne (by simpa using joinSlash_splitSlash (parentOf o) [])⟩
+
+/-- Non-vacuity and a concrete instance: `build sub/x.txt sub/deep/y.txt` — both `sub` and
+    `sub/deep` exist (the shape a prefix-based "already made" shortcut gets wrong). -/
+example : dirsBeforeCommand [[115,117,98,47,120], [115,117,98,47,100,101,101,112,47,121]]
+    = [[115,117,98], [115,117,98], [115,117,98,47,100,101,101,112]] := by decide
+
 end N2V.C16
